@@ -232,8 +232,16 @@ def run_server(spec: dict, seed: int, conf: dict | None = None, replay_actions: 
                             snap = corr._summary(live._runner_info(run), len(run.writes) - base) + " ;; " + enc.state(r.state)
                         except enc.EncError:
                             snap = None  # fractional times (the F13 witnesses): monitors only, no model comparison
+                    wake = None
+                    if snap is not None:
+                        # what the loop's next `wait_for_next_task` is told: next_wakeup_timeout(now), as an absolute time
+                        try:
+                            to = run.runner.next_wakeup_timeout(loop.time())
+                            wake = "_" if to is None else enc.num(loop.time() + to)
+                        except Exception as ex:  # noqa: BLE001
+                            wake = f"<{type(ex).__name__}: {ex}>"
                     run.marks.append({"kind": "quiet", "t": loop.time(), "idx": len(run.trace.calls), "row": row, "live": is_live,
-                                      "snap": snap, "inits": len(run.inits)})
+                                      "snap": snap, "inits": len(run.inits), "wake": wake})
                     if row["status"] in TERMINAL:
                         st_out.end = "terminal"
                         break
@@ -444,6 +452,9 @@ def model_lines(tr: STrace) -> tuple[list[str], list[str]]:
             outs.append("status=%s idle=%s live=%d loads=%d err=%s" % (row["status"], enc.num(row["idle"]), 1 if m["live"] else 0, m["inits"], err_state[0]))
             if m["snap"] is not None:
                 ops.append("rshow"); outs.append(norm_rshow(m["snap"]))
+                if m.get("wake") is not None:
+                    # the instant the control loop sleeps until = the earliest entry of the timer heap (Runner.nextWakeup)
+                    ops.append("wake"); outs.append(m["wake"])
             elif not m["live"]:
                 ops.append("rshow"); outs.append("not-live")
 
@@ -589,6 +600,15 @@ def mon_timers(tr: STrace, case: Any) -> list[Violation]:
                 continue
             if t_end < e.due - EPS and tr.end != "stuck":
                 continue  # the observation window ended before the timer was due ("stuck" = nothing is scheduled any more)
+            if while_pending and while_pending[0]["t"] > e.due + EPS:
+                # not the known loss of a timer that was still in the future when the run left memory: this one was already
+                # due and the control loop had not delivered it (it slept past it), so the cut found it still in the heap
+                c0 = while_pending[0]
+                vs.append(Violation(f"C14/{e.kind}_overdue_at_{c0['kind']}",
+                                    f"{desc} was still undelivered when the run left memory ({c0['kind']}) at t={c0['t']:g}, {c0['t'] - e.due:g} s after it was due: "
+                                    f"the control loop slept past it (timer heap at the cut: {[h[:5] for h in c0['heap']]}; idle_timeout={tr.conf.get('idle_timeout')}); "
+                                    f"at t={t_end:g} ({tr.end}) the handler is '{status}', in memory: {tr.final.get('live')}", case))
+                continue
             vs.append(Violation(f"C14/{e.kind}_lost_{where}",
                                 f"{desc} never fired: at t={t_end:g} ({tr.end}) the handler is '{status}', in memory: {tr.final.get('live')}; {ctx or 'the run never left memory'}",
                                 case))
